@@ -181,7 +181,7 @@ func (c *Ctx) Violation(sig string, replay any) {
 	if c.violations > 20 {
 		return
 	}
-	dir := filepath.Join(Root, "out")
+	dir := OutDir()
 	_ = os.MkdirAll(dir, 0o755)
 	path := filepath.Join(dir, fmt.Sprintf("%s-violation-%d.json", c.ID, c.violations))
 	b, _ := json.MarshalIndent(map[string]any{"property": c.ID, "signature": sig, "seed": c.Seed, "tier": c.Tier, "replay": replay}, "", " ")
@@ -239,6 +239,9 @@ func (c *Ctx) Finish() int {
 	}
 	b, _ := json.MarshalIndent(ev, "", " ")
 	dir := filepath.Join(Root, "evidence")
+	if d := os.Getenv("VERIF_EVIDENCE_DIR"); d != "" {
+		dir = d
+	}
 	_ = os.MkdirAll(dir, 0o755)
 	if err := os.WriteFile(filepath.Join(dir, c.ID+".json"), append(b, '\n'), 0o644); err != nil {
 		fmt.Fprintf(os.Stderr, "evidence: %v\n", err)
@@ -253,4 +256,12 @@ func (c *Ctx) Finish() int {
 		return 2
 	}
 	return 0
+}
+
+// OutDir is where replay files go.
+func OutDir() string {
+	if d := os.Getenv("VERIF_OUT_DIR"); d != "" {
+		return d
+	}
+	return filepath.Join(Root, "out")
 }
